@@ -1,0 +1,48 @@
+//go:build verif
+
+// Contracts for the decoders (C06 no-panic sweep on arbitrary bytes, C04 layout
+// and frame, C05 op codec).  Comment-only file (build tag verif).
+
+package roaring
+
+// ---- roaring iterators: arbitrary input bytes, no run-time panic ------------------
+
+//@ contract newRoaringIterator props C06,C04
+//@   requires len(data) <= 4294967295
+//@   ensures true
+
+//@ contract newPilosaRoaringIterator props C06,C04
+//@   requires len(data) >= 8 && len(data) <= 4294967295
+//@   ensures result1 == nil ==> result0 != nil && pitRI(result0)
+
+//@ spec pitRI(r *pilosaRoaringIterator) = r != nil && len(r.baseRoaringIterator.data) <= 4294967295 && r.baseRoaringIterator.keys >= 0 && r.baseRoaringIterator.keys <= 4294967295 && r.baseRoaringIterator.currentIdx >= -1 && (r.baseRoaringIterator.currentIdx < r.baseRoaringIterator.keys ==> len(r.baseRoaringIterator.headers) == r.baseRoaringIterator.keys * 12 && len(r.baseRoaringIterator.offsets) == r.baseRoaringIterator.keys * 4) && (r.baseRoaringIterator.currentIdx >= r.baseRoaringIterator.keys ==> r.baseRoaringIterator.lastErr != nil)
+
+//@ contract (*pilosaRoaringIterator).Next props C06,C04
+//@   requires pitRI(r)
+//@   ensures pitRI(r)
+//@   ensures err == nil ==> 8 <= r.baseRoaringIterator.currentDataOffset && r.baseRoaringIterator.currentDataOffset < len(r.baseRoaringIterator.data)
+//@   ensures err == nil && cType == 1 ==> r.baseRoaringIterator.currentDataOffset + 2 * length <= len(r.baseRoaringIterator.data) && length == n
+//@   ensures err == nil && cType == 2 ==> r.baseRoaringIterator.currentDataOffset + 8192 <= len(r.baseRoaringIterator.data) && length == 1024
+//@   ensures err == nil && cType == 3 ==> r.baseRoaringIterator.currentDataOffset + 4 * length <= len(r.baseRoaringIterator.data)
+//@   ensures unchanged(r.baseRoaringIterator.data)
+
+//@ contract readOfficialHeader props C06,C04
+//@   ensures err == nil ==> 0 <= header && header <= pos && pos < len(buf) && size <= 65536 && pos == header + 4 * size
+//@   ensures unchanged(buf)
+
+//@ contract officialRoaringIterator.containerTyper trusted pure props C06,C04
+//@   ensures result == 1 || result == 2 || result == 3
+
+//@ spec oitRI(r *officialRoaringIterator) = r != nil && len(r.baseRoaringIterator.data) <= 4294967295 && r.baseRoaringIterator.keys >= 0 && r.baseRoaringIterator.keys <= 65536 && r.baseRoaringIterator.currentIdx >= -1 && (r.baseRoaringIterator.currentIdx < r.baseRoaringIterator.keys ==> len(r.baseRoaringIterator.headers) == r.baseRoaringIterator.keys * 4 && (!r.haveRuns ==> len(r.baseRoaringIterator.offsets) == r.baseRoaringIterator.keys * 4)) && (r.baseRoaringIterator.currentIdx >= r.baseRoaringIterator.keys ==> r.baseRoaringIterator.lastErr != nil)
+
+//@ contract newOfficialRoaringIterator props C06,C04
+//@   requires len(data) <= 4294967295
+//@   ensures result1 == nil ==> result0 != nil && oitRI(result0)
+//@   ensures unchanged(data)
+
+//@ contract (*officialRoaringIterator).Next props C06,C04
+//@   requires oitRI(r) && r.baseRoaringIterator.data.ref != 0
+//@   ensures oitRI(r)
+//@   ensures err == nil ==> 8 <= old(r.baseRoaringIterator.currentDataOffset) || cType == 3 || !r.haveRuns
+//@   ensures unchanged(r.baseRoaringIterator.data)
+//@   loop 1 invariant 0 <= $i + 1 && $i + 1 <= len(newRuns) && len(newRuns) == runCount && fresh(newRuns) && unchanged(r.baseRoaringIterator.data) && oitRI(r)
